@@ -354,7 +354,8 @@ mk('C14', ['AllocGenSpec','TopK','AllocProofs','SplitProofs','AllocMin','AllocGl
    lifted('C14_construct_labels','AllocProofs','construct_labels','the labels of a constructed Multistage schedule: all RAM or DISK, min(ram+disk, N-1) of them, at most min(ram, N-1) RAM and at most min(disk, N-1) DISK'),
    lifted('C14_alloc_labels_facts','AllocProofs','alloc_labels_facts','exactly min(ram, #positions) positions are labelled RAM'),
    lifted('C14_position_storage','AllocMin','ms_position_storage','second clause: a checkpoint pushed when the stack holds d entries is written to label d, and is read (Copy / Move) only while on top with d entries below it, from label d -- every state of the extracted machine'),
-   lifted('C14_allocate_is_source','AllocGenSpec','allocate_is_shape','THE ALLOCATION IS THE SOURCE: AllocGenSpec.alloc_pre_shape / alloc_tail_shape are the Gallina functions harness/translate.py renders from the preamble of allocate_snapshots (the three clamps to max_n - 1) and from its last statements (allocation = [DISK for _ in range(snapshots)]; for i, _ in sorted(enumerate(weights), key=itemgetter(1), reverse=True)[:snapshots_in_ram]: allocation[i] = RAM -- a stable descending sort, a prefix slice, list assignment); Gen/AllocGen.v re-translates the current source on every run and proves the result equal to these terms by conversion.  Multistage.allocate, on which C14_alloc_min_disk / C14_min_disk_accesses are stated, is exactly that preamble, the dry run of the model, and that allocation, for all arguments (the dry run itself -- functools.singledispatch handlers over nonlocal state -- is compared textually: AllocPins)'),
+   lifted('C14_allocate_is_source','AllocGenSpec','allocate_is_source','ALLOCATE_SNAPSHOTS IS THE SOURCE: AllocGenSpec.alloc_pre_shape / handle_shape / alloc_tail_shape are the Gallina functions harness/translate.py renders from allocate_snapshots: the preamble (the three clamps to max_n - 1); the functools.singledispatch handlers action_copy / action_move / action_write / action_pass over the nonlocal snapshot_i and the list weights, as one step on (snapshot_i, weights) per action type (TypeError for an unregistered type; weights[i] += w is addat; write_weight = read_weight = 1 and delete_weight = 0 are the defaults of the signature, the only values the constructor calls it with); and the last statements (allocation = [DISK for _ in range(snapshots)]; for i, _ in sorted(enumerate(weights), key=itemgetter(1), reverse=True)[:snapshots_in_ram]: allocation[i] = RAM -- a stable descending sort, a prefix slice, list assignment).  Gen/AllocGen.v re-translates the current source on every run and proves the result equal to these terms by conversion; the driver loop (next(cp_schedule); action(cp_action); break at EndReverse), the dry-run constructor call and the assert are compared textually by the same generator.  Multistage.allocate, on which C14_alloc_min_disk / C14_min_disk_accesses are stated, is exactly that preamble, the handlers folded over the dry run of the model (weigh_shape), and that allocation, for all arguments'),
+   lifted('C14_weigh_is_source','AllocGenSpec','weigh_is_shape','the weighing of the model (Multistage.weigh) is the fold of the translated handlers over the outcomes of the dry run, from every depth >= -1 and every weight list'),
    lifted('C14_alloc_min_disk','AllocMin','alloc_min_disk','last clause, the allocation step: for any non-negative per-position weights w, the labelling allocate_snapshots computes (alloc_labels w r) puts the least total weight on DISK among all RAM/DISK labellings with at most r RAM positions'),
    lifted('C14_disk_accesses_are_weights','AllocGlue','disk_accesses_are_weights','the glue: for every configuration c with the same max_n, trajectory and number of labels as the dry-run configuration c0, the number of accesses (checkpoint writes + loads) of its stream that name storage st is lsum st (labels c) w, w = the weights allocate_snapshots computes from the dry run; (streams are taken over fuel_for N requests, as in the model of allocate_snapshots)'),
    lifted('C14_min_disk_accesses','AllocGlue','multistage_min_disk','LAST CLAUSE: the constructed MultistageCheckpointSchedule(N, ram, disk) has the fewest DISK accesses among all label vectors of the same length with at most min(ram, N-1) RAM positions (all three constructor branches)')])
